@@ -312,7 +312,8 @@ def run_world(rep, driver, model, r, tier, splice, hsize, n_eval, dist):
     by_src = collections.defaultdict(list)
     for x in lines:
         # the harness' own start-up probes (before t_start) may have used a client port that a scenario gets again later
-        if x["state"] and x["state"][0]["time"] / 1000.0 >= t_start:
+        # (recorded times are whole milliseconds: allow for the truncation; the probes end 0.3 s before t_start)
+        if x["state"] and x["state"][0]["time"] / 1000.0 >= t_start - 0.05:
             by_src[x["source"]].append(x)
     expected = collections.Counter(h["source"] for h in hs if "source" in h)
     for h in hs:
